@@ -163,35 +163,39 @@ def parseExtras (c : Cursor) : Res (List (List Nat) × Cursor) :=
   | none => .ok ([], c)
   | some (bracketPos, c1) => parseExtrasLoop (c.rest.length + 2) c1.eatWhitespace bracketPos [] true
 
-/-- the scanning loop of `parse_url`: returns the byte length and the cursor after the loop -/
-def urlScan : Nat → Cursor → Nat → Nat × Cursor
-  | 0, c, len => (len, c)
+/-- the scanning loop of `parse_url`: the byte length and the cursor after the loop, or — a
+    top-level `;` / `#` followed by whitespace — the position and length of that character
+    (the end of the URL is ambiguous: an error whatever follows; K4 repair) -/
+def urlScan : Nat → Cursor → Nat → (Nat × Cursor) ⊕ (Nat × Nat)
+  | 0, c, len => .inl (len, c)
   | fuel + 1, c, len =>
     match c.next with
-    | none => (len, c)
+    | none => .inl (len, c)
     | some ((_, ch), c1) =>
-      if ch == '\r' || ch == '\n' then (len, c1)
+      if ch == '\r' || ch == '\n' then .inl (len, c1)
       else
         let stopWs := isWs ch &&
           (match c1.eatWhitespace.peekChar with
            | none => true
            | some n => n == ';' || n == '#')
-        if stopWs then (len, c1)
+        if stopWs then .inl (len, c1)
         else
           let len' := len + utf8Len ch
           let glued := (ch == ';' || ch == '#') &&
             (match c1.peekChar with | some n => isWs n | none => false)
-          if glued then (len', c1) else urlScan fuel c1 len'
+          if glued then .inr (c1.pos - utf8Len ch, utf8Len ch) else urlScan fuel c1 len'
 
 /-- `parse_url`: the slice handed to `T::parse_url` -/
 def parseUrl (c : Cursor) : Res ((List Char × Nat × Nat) × Cursor) :=
   let c0 := c.eatWhitespace
   let start := c0.pos
-  let (len, c1) := urlScan (c0.rest.length + 1) c0 0
-  match Res.ofSlice (c1.slice start len) with
-  | .panic s => .panic s
-  | .err e => .err e
-  | .ok url => if url.isEmpty then serr start len else .ok ((url, start, len), c1)
+  match urlScan (c0.rest.length + 1) c0 0 with
+  | .inr (p, l) => serr p l
+  | .inl (len, c1) =>
+    match Res.ofSlice (c1.slice start len) with
+    | .panic s => .panic s
+    | .err e => .err e
+    | .ok url => if url.isEmpty then serr start len else .ok ((url, start, len), c1)
 
 /-- `parse_version_specifier` (bare): the calls issued so far, and how the scan ended -/
 def specsBare : Nat → Cursor → Nat → List Char → List ExtCall → List ExtCall × Res Cursor
